@@ -164,7 +164,7 @@ class Wikicode(StringMixIn):
             for node in self.nodes:
                 for context, child in self._get_children(node, contexts=True):
                     if obj is child:
-                        if not context:
+                        if context is None:
                             context = self
                         return context, mkslice(context.index(child))
             raise ValueError(obj)
